@@ -99,6 +99,13 @@ func main() {
 		stall = v
 	}
 	props.StartStallWatchdog(*prop, stall)
+	props.WorkerPanic = func(shard int, p interface{}) bool {
+		if rep.Violations() == 0 {
+			return false // a defect of the harness itself: crash loudly
+		}
+		fmt.Printf("NOTE property=%s work unit %d abandoned after violations were recorded: %v\n", *prop, shard, p)
+		return true
+	}
 	fn(ctx)
 	code := rep.Finish()
 	if wantSig != "" {
